@@ -61,7 +61,7 @@ NoFile == <<-1>>
 
 Ops == {"f_m1", "f_m2", "f_t2", "f_tlt3", "f_list", "filter_spatial", "bind_region", "sc", "mc", "smc",
         "ntest", "ltest", "stest", "mtest", "to_dict", "from_dict", "write_ascii", "load_ascii",
-        "scale_half", "scale_one", "scale_two"}
+        "scale_half", "scale_one", "scale_two", "deepcopy", "pickle"}
 
 Init == /\ cat \in Inits /\ init0 = cat
         /\ region = FALSE /\ doc = NoDoc /\ file = NoFile /\ last = None
@@ -79,6 +79,8 @@ Do(op) ==
     /\ init0' = init0
     /\ fscale' = (CASE op = "scale_half" -> 1 [] op = "scale_one" -> 2 [] op = "scale_two" -> 4 [] OTHER -> fscale)   \* absolute, not cumulative
     /\ CASE op \in {"scale_half", "scale_one", "scale_two"} -> Observe(None)
+         \* the object is replaced by a deep copy / by what pickling and unpickling it gives: nothing observable changes
+         [] op \in {"deepcopy", "pickle"} -> Observe(None)
          [] op = "f_m1" -> Filter({"m1"})
          [] op = "f_m2" -> Filter({"m2"})
          [] op = "f_t2" -> Filter({"t2"})
@@ -130,7 +132,7 @@ NTestSeesEverything == last.k = "n" => last.v[1] = Len(cat)
 \* observations do not change the object; filters only remove; nothing but a load can add events
 EvaluationsLeaveTheForecast == [][\A op \in Ops \ {"scale_half", "scale_one", "scale_two"} : hist' = Append(hist, op) => fscale' = fscale]_vars
 ObservationsArePure == [][\A op \in {"sc", "mc", "smc", "ntest", "ltest", "stest", "mtest", "to_dict", "write_ascii",
-                                     "scale_half", "scale_one", "scale_two"} :
+                                     "scale_half", "scale_one", "scale_two", "deepcopy", "pickle"} :
                              hist' = Append(hist, op) => cat' = cat /\ region' = region]_vars
 FiltersOnlyRemove == [][\A op \in {"f_m1", "f_m2", "f_t2", "f_tlt3", "f_list", "filter_spatial"} :
                              hist' = Append(hist, op) => Len(cat') <= Len(cat) /\ Keep(cat', preds') = cat']_vars
